@@ -112,6 +112,10 @@ func c20Jobs(r *R) {
 		n := 1 + r.Choose(5)
 		for k := 0; k < n; k++ {
 			j := &c20Job{id: len(jobs) + 1, owner: o, kind: r.Choose(7) % 4, period: periods[r.Choose(len(periods))], toSink: r.Chance(35), end: horizon}
+			if j.kind == 0 && r.Chance(15) {
+				// "all delays": a Once with a delay of zero or of one millisecond
+				j.period = []time.Duration{0, time.Millisecond}[r.Choose(2)]
+			}
 			switch r.Choose(3) {
 			case 0:
 				j.ref = fmt.Sprintf("ref-%d", j.id)
